@@ -38,6 +38,9 @@ def jfill(n, idv):
     ra = (a * (n // 251 + 1))[:n]
     rb = (b * (n // 256 + 1))[:n]
     x = (int.from_bytes(ra, "little") ^ int.from_bytes(rb, "little")).to_bytes(n, "little") if n else b""
+    if idv % 3 == 0 and n > 8:
+        z = min(n - 8, 6000)
+        x = x[:n - z] + b"\0" * z
     if n >= 4:
         x = struct.pack("<I", idv) + x[4:]
     return x
@@ -107,7 +110,7 @@ def compose(ops, protocol=True, mt=None):
     return lines, recs, table, False
 
 
-def run_script(drv, bdir, ops, want_emu, keep=None, shim=None):
+def run_script(drv, bdir, ops, want_emu, keep=None, shim=None, tmpdir=False):
     """Execute one op list; returns dict(execution=[records], problems=[...],
     emu=EmuRun|None, script=lines)."""
     d = core.mkscratch("rt")
@@ -118,6 +121,8 @@ def run_script(drv, bdir, ops, want_emu, keep=None, shim=None):
         open(sp, "w").write("\n".join(lines) + "\n")
         td = os.path.join(d, "ovni")
         env = {"OVNI_TRACEDIR": td}
+        if tmpdir:
+            env["OVNI_TMPDIR"] = os.path.join(d, "tmp")      # streams are relocated at ovni_thread_free
         if shim:
             env.update({"LD_PRELOAD": shim, "VERIF_SHORTWRITE": "4096"})
         rc, out, err = core.run([drv, sp, lp], timeout=120, env=env, cwd=d)
@@ -398,11 +403,12 @@ def main(pid, tier):
 
     def one(x):
         k, ops = x
-        return run_script(drv, bdir, ops, want_emu, shim=shim if k % 3 == 1 else None)
+        return run_script(drv, bdir, ops, want_emu, shim=shim if k % 3 == 1 else None, tmpdir=(k % 3 == 2 or k % 6 == 1))
 
     ck.phase('generate')
     results = core.pmap(one, list(enumerate(scripts)), workers=core.NCPU)
     ck.notes["scripts"]["under_short_writes"] = len([k for k in range(len(scripts)) if k % 3 == 1])
+    ck.notes["scripts"]["relocated_from_tmpdir"] = len([k for k in range(len(scripts)) if k % 3 == 2 or k % 6 == 1])
     # multi-threaded protocol-conformant programs: 3 threads of one process, each running one of the
     # scripts above, all calling ovni_thread_free at the same time; two thirds relocate from OVNI_TMPDIR.
     # Every thread's stream is validated on its own (C01: exactly what that thread emitted).
